@@ -26,7 +26,7 @@ ASSUMPTIONS = [
     'tight=True / clip=True / clip=False: the box is drawn from an enumerated rational pool (the symbolic pipeline needs text); the point stays symbolic',
 ]
 BOUNDS = {'quick': dict(dim='1..2', NP=4, steps=1, box_pool=3), 'thorough': dict(dim='1..3', NP='4..6', steps=1, box_pool=6)}
-BUDGET = {'quick': 600, 'thorough': 5400}
+BUDGET = {'quick': 1800, 'thorough': 5400}
 INF = float('inf')
 
 
